@@ -406,7 +406,58 @@ func generate(a wh.Args, o *wh.Out) []string {
 		}
 	}
 
-	// 6. Throttle against the real clock: lower bound on the time n starts take; one Throttle shared by k callers;
+	// 6. concurrent messages through ONE wrapped handler value (the Router calls the wrapped handler from one goroutine
+	// per message): every call must return its own handler's outputs and error.  Each single middleware, and seeded
+	// stacks of 2-3, with 2..16 goroutines; message i is scripted with template i mod 5, its values tagged with i.
+	templates := rs[2] + ";" + rs[4] + ";" + rs[5] + ";" + rs[12] + ";" + rs[0]
+	gs := []int{2, 4, 8, 16}
+	concN := func(st []string) int {
+		n := 1600
+		if a.Thorough() {
+			n = 8000
+		}
+		for _, m := range st {
+			if m == "H" || strings.HasPrefix(m, "Y:") {
+				n /= 4 // every call waits for a tick / sleeps between attempts
+			}
+		}
+		return n
+	}
+	addConc := func(st []string, g int, tag string) {
+		s := "-"
+		if len(st) > 0 {
+			s = strings.Join(st, ",")
+		}
+		add("conc "+s+" "+msgs[rng.Intn(len(msgs))]+" "+templates+" "+strconv.Itoa(g)+" "+strconv.Itoa(concN(st)), tag)
+	}
+	for i, mw := range all {
+		addConc([]string{mw}, gs[i%len(gs)], "conc.depth1")
+	}
+	addConc([]string{"B"}, 8, "conc.depth1")
+	addConc([]string{"B"}, 16, "conc.depth1")
+	addConc(nil, 8, "conc.depth0")
+	nConc := 30
+	if a.Thorough() {
+		nConc = 150
+	}
+	for i := 0; i < nConc; i++ {
+		n := 2 + rng.Intn(2)
+		st := make([]string, n)
+		for {
+			for j := range st {
+				st[j] = all[rng.Intn(len(all))]
+			}
+			if i%3 == 0 {
+				st[rng.Intn(n)] = "B"
+			}
+			if countRetry(st) <= 1 {
+				break
+			}
+		}
+		addConc(st, gs[rng.Intn(len(gs))], "conc.stack")
+	}
+
+	// 7. Throttle against the real clock: lower bound on the time n starts take; one Throttle shared by k callers;
 	// messages with a live context, with an already cancelled context, and under a Timeout (outside the Throttle)
 	// that expires while the message waits for its tick
 	add("throttle 12 1000 2000000000 1 live", "throttle") // 2ms period
